@@ -6,9 +6,9 @@ package main
 // check them against Paginate.tla given the full item list of the same state (post).
 
 import (
+	"strings"
 	"bytes"
 	"encoding/binary"
-	"fmt"
 	"sort"
 
 	sdk "github.com/cosmos/cosmos-sdk/types"
@@ -310,6 +310,26 @@ func (w *World) ListQueries(full bool) []interface{} {
 
 // streamOrder computes, independently of the repository's key builders, the store key order of the
 // live streams: 0x11 | len(receiver) | receiver | len(sender) | sender, compared bytewise.
+// addrOfName resolves a projection name (scenario account or module account) to its address.
+func (w *World) addrOfName(n string) (sdk.AccAddress, bool) {
+	if a, ok := w.Accts[n]; ok {
+		return a.Addr, true
+	}
+	switch n {
+	case "gov":
+		return w.GovAddr, true
+	case "feecol":
+		return w.FeeAddr, true
+	case "ent":
+		return w.EntAddr, true
+	case "stream":
+		return w.StreamAddr, true
+	case "distr":
+		return w.DistrAddr, true
+	}
+	return nil, false
+}
+
 func (w *World) streamOrder(keys []string) []interface{} {
 	type kv struct {
 		name string
@@ -317,9 +337,15 @@ func (w *World) streamOrder(keys []string) []interface{} {
 	}
 	var xs []kv
 	for _, k := range keys {
-		var r, s string
-		fmt.Sscanf(k, "%2s/%2s", &r, &s)
-		ra, sa := w.Accts[r].Addr, w.Accts[s].Addr
+		parts := strings.SplitN(k, "/", 2)
+		if len(parts) != 2 {
+			continue
+		}
+		ra, okr := w.addrOfName(parts[0])
+		sa, oks := w.addrOfName(parts[1])
+		if !okr || !oks {
+			continue
+		}
 		b := append([]byte{byte(len(ra))}, ra...)
 		b = append(b, byte(len(sa)))
 		b = append(b, sa...)
